@@ -598,13 +598,11 @@ def _lmethod_error(rc: RuleCtx, rule: str):
                 want = rl * wl + rr * wr
             else:
                 want = wl * anf.f_sqrt(rl * wl) + wr * anf.f_sqrt(wr * rr)
-            ok = False
-            for g, v in cases_of(err):
-                if isinstance(v, Rat) and v.equals(want):
-                    ok = True
-                elif fit == "point_fit" and isinstance(v, Rat) and g_sat(g):
-                    # degenerate x0 == xn cases of the endpoint fit are outside the domain
-                    pass
+            # every way the error can be computed must be the stated one; the degenerate cases of the endpoint fit (a side whose
+            # end points share their x) are outside the domain (x strictly increasing)
+            degen = g_or(canon_sign(_at(x, idx) - _at(x, C(0)), OPS["=="]), canon_sign(_at(x, C(-1)) - _at(x, idx), OPS["=="]))
+            live = [(g, v) for g, v in cases_of(err) if g_sat(g_and(g, g_not(degen)))]
+            ok = bool(live) and all(isinstance(v, Rat) and v.equals(want) for _g, v in live)
             if ok:
                 res.ok(rule, f"lmethod.compute_error[{fit},{cost}]", "length-weighted two-line error with the stated weights and shared split point")
             else:
